@@ -6,8 +6,8 @@ import TexcraftModel.Model.C13
 `h <lc> <patterns> <exceptions> <words> <impl>`
 
 * `<lc>`: `a` = `AsciiLowerCaser`, `t` = the harness's table lower-caser (`tableLc`);
-* `<patterns>`, `<exceptions>`, `<words>`: comma-separated, `_` = empty list; `^HHHH` inside an
-  item = the character with that hexadecimal code point;
+* `<patterns>`, `<exceptions>`, `<words>`: comma-separated, `_` = empty list, `~` = the empty
+  item; `^HHHH` inside an item = the character with that hexadecimal code point;
 * `<impl>`: per word (comma-separated) the indices the real `calculate_indices` returned,
   dot-separated, `_` = none, `P` = it panicked.
 
@@ -34,7 +34,7 @@ def unesc : List Char → List Char
   | [] => []
 
 def items (s : String) : List (List Char) :=
-  if s = "_" then [] else (s.splitOn ",").map (fun x => unesc x.toList)
+  if s = "_" then [] else (s.splitOn ",").map (fun x => if x = "~" then [] else unesc x.toList)
 
 def dots (l : List Nat) : String :=
   if l.isEmpty then "_" else ".".intercalate (l.map toString)
